@@ -41,6 +41,9 @@ pub async fn run(args: &Args) {
         "c17",
         "real LoadBalanceConnector with n=1..8 recording members: round-robin windows under a sequential driver and exact totals under 16 concurrent tasks on the multi-thread runtime; hashBy over 8 key expressions with repeated keys (incl. equal key strings from different target representations); random membership and coverage; recorded connector == member used. distinct = distinct (algorithm, n, key expression / driver)",
     );
+    // log statements are part of the code under test: with a subscriber at TRACE level every argument of every debug!/trace!
+    // line is really evaluated (into a sink), as it is on a proxy started with -l debug
+    let _ = tracing_subscriber::fmt().with_max_level(tracing::Level::TRACE).with_writer(std::io::sink).try_init();
     let mut rng = Rng::new(args.seed);
     let rounds = args.n(300, 6000);
     for n in 1..=8usize {
@@ -226,6 +229,43 @@ pub async fn run(args: &Args) {
             out.violation("nested round robin: selections leave the configured members or are not shared evenly".into(), serde_json::json!({"per_member": totals, "expected": [200, 0, 100, 100]}));
         }
         out.nontrivial(&"nested");
+    }
+    // nested hash-by balancers with DIFFERENT key expressions: the inner selection is a function of the inner key only
+    {
+        out.case();
+        let recs = members(6);
+        let in0 = serde_json::json!({"name": "in0", "type": "loadbalance", "connectors": ["m0", "m1", "m2"], "algo": {"hashBy": "to_string(request.target.port)"}});
+        let in1 = serde_json::json!({"name": "in1", "type": "loadbalance", "connectors": ["m3", "m4", "m5"], "algo": {"hashBy": "to_string(request.target.port)"}});
+        let outer = serde_json::json!({"name": "lb", "type": "loadbalance", "connectors": ["in0", "in1"], "algo": {"hashBy": "request.target.host"}});
+        match make_state(&recs, &[in0, in1, outer]).await {
+            Ok(state) => {
+                let lb = state.connectors.get("lb").unwrap().clone();
+                // (inner balancer, port) -> members seen
+                let mut seen: std::collections::HashMap<(usize, u16), std::collections::HashSet<usize>> = Default::default();
+                for i in 0..600 {
+                    let mut rq = rand_req(&mut rng);
+                    let port = [80u16, 443, 8080, 53][i % 4];
+                    rq.target = TargetAddress::DomainPort(format!("host{}.example", i % 37), port);
+                    let ctx = make_ctx(&state, &rq).await;
+                    let id = ctx.read().await.props().id;
+                    let _ = lb.clone().connect(state.clone(), ctx).await;
+                    for (mi, r) in recs.iter().enumerate() {
+                        if r.take().contains(&id) {
+                            seen.entry((mi / 3, port)).or_default().insert(mi);
+                        }
+                    }
+                }
+                let bad: Vec<_> = seen.iter().filter(|(_, v)| v.len() > 1).map(|(k, v)| serde_json::json!({"inner": k.0, "port": k.1, "members": v.iter().collect::<Vec<_>>()})).collect();
+                if !bad.is_empty() {
+                    out.violation("nested hashBy: requests with the same inner key were sent to different members of the inner balancer".into(), serde_json::json!({"examples": bad.into_iter().take(4).collect::<Vec<_>>()}));
+                }
+                if seen.keys().map(|k| k.0).collect::<std::collections::HashSet<_>>().len() < 2 {
+                    out.inconclusive += 1;
+                }
+                out.nontrivial(&"nested-hashby");
+            }
+            Err(e) => out.violation("nested hashBy balancers are rejected".into(), serde_json::json!(e.to_string())),
+        }
     }
     out.finish();
 }
